@@ -126,8 +126,27 @@ def measurement_problems(text, tokens, measurements, limit=3):
         else:
             if s not in starts_set:
                 problems.append({"problem": "start_is_not_a_code_token_position", **d})
+            else:
+                # ... and that token's text really is at this position of the input (independent of lex's own arithmetic)
+                tok = next(t for t in code if (t.location.line, t.location.column) == s)
+                first = tok.value.split("\n")[0]
+                if lines[s[0] - 1][s[1] - 1: s[1] - 1 + len(first)] != first:
+                    problems.append({"problem": "text_at_start_is_not_the_start_token", "token": tok.value[:30],
+                                     "found": lines[s[0] - 1][s[1] - 1: s[1] - 1 + len(first)], **d})
             if e not in ends_set:
                 problems.append({"problem": "end_is_not_just_past_a_code_token", **d})
+            else:
+                last = [t for t in code if (t.location.line + t.value.count("\n"),
+                                            (len(t.value) - t.value.rfind("\n")) if "\n" in t.value else t.location.column + len(t.value)) == e]
+                tail = last[0].value.split("\n")[-1]
+                if tail and lines[e[0] - 1][max(0, e[1] - 1 - len(tail)): e[1] - 1] != tail:
+                    problems.append({"problem": "text_before_end_is_not_the_end_token", "token": last[0].value[-30:],
+                                     "found": lines[e[0] - 1][max(0, e[1] - 1 - len(tail)): e[1] - 1], **d})
+            name_ok = [t for t in code if s <= (t.location.line, t.location.column) < e and t.token_type in Name and t.value == m.unit_name
+                       and lines[t.location.line - 1][t.location.column - 1: t.location.column - 1 + len(t.value)] == t.value]
+            if not name_ok and any(t.token_type in Name and t.value == m.unit_name for t in code
+                                   if s <= (t.location.line, t.location.column) < e):
+                problems.append({"problem": "name_token_is_not_where_its_position_says", **d})
             inside = [t for t in code if s <= (t.location.line, t.location.column) < e]
             if not any(t.token_type in Name and t.value == m.unit_name for t in inside):
                 problems.append({"problem": "name_is_not_an_identifier_inside_the_span", **d})
